@@ -1,6 +1,6 @@
 (* C07 — a client handshake is accepted at most once within the replay history.
    Only statements; every proof is [exact] of a lemma in theories/. *)
-From OSS Require Import theories.Base theories.Replay.
+From OSS Require Import theories.Base theories.Replay theories.ReplayProofs.
 
 (* A handshake presented again while at most W other handshakes were checked in
    between (accepted or refused), every capacity in effect being >= W >= 1
